@@ -114,6 +114,21 @@ def classify_failure(unit, harness, c):
     return "safety", unit.uid, case
 
 
+def scan_stubs_and_assumes(unit):
+    """Mechanical scan of the unit's harness modules: every kani::stub target and every kani::assume (DESIGN 2.4)."""
+    stubs, assumes = set(), []
+    for parent, mod in getattr(unit, "modules", []):
+        try:
+            txt = open(os.path.join(core.VERIF, "kani", mod)).read()
+        except Exception:
+            continue
+        for m in re.finditer(r"#\[kani::stub\(\s*([^,]+?)\s*,\s*([^)]+?)\s*\)\]", txt):
+            stubs.add(f"{' '.join(m.group(1).split())} -> {m.group(2).strip()}")
+        for m in re.finditer(r"kani::assume\(([^;]*)\);", txt):
+            assumes.append(" ".join(m.group(1).split())[:120])
+    return {"kani_stub": sorted(stubs), "kani_assume": sorted(set(assumes))}
+
+
 def functions_under_contract(unit):
     out = []
     for f in unit.functions:
@@ -198,7 +213,7 @@ def run_property(pid, units, tier, level, level_note_assumptions, not_decided, s
                     for u in us:
                         rep = {"unit": u.uid, "title": u.title, "engine": "kani/cbmc-6.11 (cadical)", "complete": u.complete,
                                "bound": u.bound, "harnesses": {}, "functions": functions_under_contract(u),
-                               "dropped_by_extraction": u.dropped}
+                               "dropped_by_extraction": u.dropped, "stubs_and_assumes_in_harness_modules": scan_stubs_and_assumes(u)}
                         for h in u.harnesses:
                             hr = r["harnesses"].get(h)
                             checks = [c for c in hr["checks"] if c.get("category") != "cover" and not is_memory_model_artefact(c)]
